@@ -142,6 +142,12 @@ class Task:
                     return self._execute_main(kwargs)
             except Exception as e:
                 self._log_and_set_exception(e)
+            except BaseException as e:
+                # Record an interrupt (e.g. KeyboardInterrupt with the
+                # NonThreadedExecutor) before the done callbacks and the
+                # done announcement below run, then let it propagate.
+                self._log_and_set_exception(e)
+                raise
             finally:
                 # Run any done callbacks associated to the task no matter what.
                 for done_callback in self._done_callbacks:
